@@ -16,10 +16,16 @@ import (
 	"time"
 )
 
-const (
-	VerifDir = "/verif"
-	RepoDir  = "/repo"
-)
+const VerifDir = "/verif"
+
+// RepoDir is the tree under test: /repo, unless VERIF_REPO points a
+// development run at a scratch worktree (registered checks never set it).
+var RepoDir = func() string {
+	if d := os.Getenv("VERIF_REPO"); d != "" {
+		return d
+	}
+	return "/repo"
+}()
 
 // Violation is one refuted case.
 type Violation struct {
